@@ -202,6 +202,8 @@ func runC14(p *Prog, r *Report) {
 	c14R4(p, r)
 	parseOptsOutputPkgRule(p, r, "C14.R5")
 	noMemoParseRule(p, r, "C14.R6")
+	sharedMapAliasRule(p, r, "C14.R7")
+	signatureAssertRule(p, r, "C14.R8")
 }
 
 // guardSpec: a validation that must exist in method.Parse as `if COND { return nil, <error> }`.
